@@ -133,6 +133,58 @@ theorem foldl_extend_eq (args : List (List α)) :
 theorem vectorAppend_eq (args : List (List α)) : Prim.vectorAppend args = args.flatten := by
   simp [Prim.vectorAppend, foldl_extend_eq]
 
+/-! ## immutable vectors: the in-place branch and the copying branch agree with each other and with S -/
+
+theorem ivRef_eq (v : List α) (i : Int) : Prim.ivRef v i = vRef v i := by
+  unfold Prim.ivRef vRef lRef
+  by_cases h : i < 0
+  · simp [h]
+  · simp only [h, if_false]
+    by_cases h2 : i.toNat < v.length
+    · simp only [h2, if_true]
+      cases v[i.toNat]? <;> rfl
+    · simp [h2, List.getElem?_eq_none (Nat.le_of_not_lt h2)]
+
+theorem ivSet_eq (u : Bool) (v : List α) (i : Int) (x : α) : Prim.ivSet u v i x = vSet v i x := by
+  unfold Prim.ivSet Prim.asUsize vSet
+  by_cases h : i < 0
+  · simp [h]
+  · simp only [h, if_false]
+    by_cases h2 : i.toNat < v.length
+    · cases u <;> simp [h2, Nat.not_le.mpr h2]
+    · cases u <;> simp [h2, Nat.le_of_not_lt h2]
+
+theorem ivTake_eq (u : Bool) (v : List α) (n : Int) : Prim.ivTake u v n = iTake v n := by
+  unfold Prim.ivTake Prim.asUsize iTake
+  by_cases h : n < 0
+  · simp [h]
+  · simp only [h, if_false]
+    cases u
+    · simp only [Bool.false_eq_true, if_false]
+      congr 1
+      by_cases hl : n.toNat ≤ v.length
+      · rw [Nat.min_eq_left hl]
+      · rw [Nat.min_eq_right (Nat.le_of_not_le hl), List.take_of_length_le (Nat.le_refl _),
+          List.take_of_length_le (Nat.le_of_not_le hl)]
+    · simp
+
+theorem popFrontLoop_eq : ∀ (n : Nat) (v : List α), Prim.popFrontLoop v n = v.drop n
+  | 0, v => by simp [Prim.popFrontLoop]
+  | n + 1, [] => by simp [Prim.popFrontLoop, popFrontLoop_eq n]
+  | n + 1, x :: t => by simp [Prim.popFrontLoop, popFrontLoop_eq n]
+
+theorem ivDrop_eq (u : Bool) (v : List α) (n : Int) : Prim.ivDrop u v n = iDrop v n := by
+  unfold Prim.ivDrop Prim.asUsize iDrop
+  by_cases h : n < 0
+  · simp [h]
+  · cases u <;> simp [h, popFrontLoop_eq]
+
+theorem ivRest_eq (v : List α) : Prim.ivRest v = v.drop 1 := by
+  cases v <;> simp [Prim.ivRest]
+
+theorem ivAppend_eq (args : List (List α)) : Prim.ivAppend args = args.flatten := by
+  simp [Prim.ivAppend, foldl_extend_eq]
+
 /-! ## byte vectors -/
 
 theorem asU8_eq (x : Int) : Prim.asU8 x = if isByte x then some x else none := rfl
